@@ -1,0 +1,116 @@
+//! Verification hooks (compiled only with `--cfg llg_verif`; nothing here is reachable
+//! otherwise).
+//!
+//! `std_shim` is a drop-in for the `std` crate in which `sync::Mutex` reports every lock and
+//! unlock to an optional scheduler callback. A module that starts with
+//! `#[cfg(llg_verif)] use crate::verif_hooks::std_shim as std;` gets all of its mutexes
+//! instrumented without touching its `use std::...` lines: any lock site, including one added
+//! by a later edit, becomes a scheduling point. Without a registered callback the wrapper
+//! behaves exactly like `std::sync::Mutex` (poisoning included).
+
+use ::std::sync::atomic::{AtomicUsize, Ordering};
+
+/// A scheduling point reported by an instrumented mutex.
+#[derive(Clone, Copy, Debug, PartialEq, Eq)]
+pub enum SyncEvent {
+    /// about to acquire the mutex with this identity
+    BeforeLock(usize),
+    /// the mutex with this identity has just been released
+    AfterUnlock(usize),
+}
+
+/// Callback invoked at every scheduling point of threads that opted in (see `set_thread_hook`).
+pub type SyncHook = fn(SyncEvent);
+
+static HOOK: AtomicUsize = AtomicUsize::new(0);
+
+::std::thread_local! {
+    static THREAD_OPTED_IN: ::std::cell::Cell<bool> = const { ::std::cell::Cell::new(false) };
+}
+
+/// Install (or clear) the process-wide hook.
+pub fn set_sync_hook(h: Option<SyncHook>) {
+    HOOK.store(h.map_or(0, |f| f as usize), Ordering::SeqCst);
+}
+
+/// Opt the calling thread in or out of reporting.
+pub fn set_thread_hook(on: bool) {
+    THREAD_OPTED_IN.with(|c| c.set(on));
+}
+
+#[inline]
+fn report(ev: SyncEvent) {
+    let h = HOOK.load(Ordering::Relaxed);
+    if h != 0 && THREAD_OPTED_IN.with(|c| c.get()) {
+        // SAFETY: the value was stored from a `SyncHook` function pointer
+        let f: SyncHook = unsafe { ::std::mem::transmute::<usize, SyncHook>(h) };
+        f(ev);
+    }
+}
+
+pub mod std_shim {
+    pub use ::std::*;
+
+    pub mod sync {
+        pub use ::std::sync::*;
+
+        use super::super::{report, SyncEvent};
+        use ::std::ops::{Deref, DerefMut};
+
+        pub struct Mutex<T: ?Sized> {
+            inner: ::std::sync::Mutex<T>,
+        }
+
+        pub struct MutexGuard<'a, T: ?Sized + 'a> {
+            guard: Option<::std::sync::MutexGuard<'a, T>>,
+            id: usize,
+        }
+
+        impl<T> Mutex<T> {
+            pub fn new(t: T) -> Self {
+                Mutex {
+                    inner: ::std::sync::Mutex::new(t),
+                }
+            }
+        }
+
+        impl<T: ?Sized> Mutex<T> {
+            fn id(&self) -> usize {
+                self as *const Self as *const u8 as usize
+            }
+
+            pub fn lock(&self) -> LockResult<MutexGuard<'_, T>> {
+                let id = self.id();
+                report(SyncEvent::BeforeLock(id));
+                match self.inner.lock() {
+                    Ok(g) => Ok(MutexGuard { guard: Some(g), id }),
+                    Err(p) => Err(PoisonError::new(MutexGuard {
+                        guard: Some(p.into_inner()),
+                        id,
+                    })),
+                }
+            }
+        }
+
+        impl<T: ?Sized> Deref for MutexGuard<'_, T> {
+            type Target = T;
+            fn deref(&self) -> &T {
+                self.guard.as_ref().unwrap()
+            }
+        }
+
+        impl<T: ?Sized> DerefMut for MutexGuard<'_, T> {
+            fn deref_mut(&mut self) -> &mut T {
+                self.guard.as_mut().unwrap()
+            }
+        }
+
+        impl<T: ?Sized> Drop for MutexGuard<'_, T> {
+            fn drop(&mut self) {
+                // release first, then report
+                drop(self.guard.take());
+                report(SyncEvent::AfterUnlock(self.id));
+            }
+        }
+    }
+}
